@@ -296,14 +296,21 @@ PCFGS = {
     'B': dict(enms=100, eneth=200, fkms=200, fkb58=100, fkfmt=200, sigtype='sm2', ensig=200),
     # everything enabled from 0, only the forks move (error-dependent compatibility, address formatting)
     'C': dict(enms=0, eneth=0, fkms=300, fkb58=300, fkfmt=300, sigtype='secp256r1', ensig=300),
+    # the stock default: the eth address driver (and one signature type) disabled by a negative enable height -
+    # off at every block height, but on where there is no height context (-1: rpc, wallet, account, CLI paths)
+    'D': dict(enms=0, eneth=-2, fkms=0, fkb58=0, fkfmt=0, sigtype='secp256r1', ensig=-1),
 }
 
 
 def pure_heights(c):
+    """below / at / above every positive boundary; a negative enable height separates -1 from every h >= 0
+    (-1 itself is added by NoCtx in every configuration)."""
     hs = set()
     for k in ('enms', 'eneth', 'fkms', 'fkb58', 'fkfmt', 'ensig'):
         if c[k] > 0:
             hs |= {c[k] - 1, c[k], c[k] + 1}
+        elif c[k] < 0:
+            hs |= {0, 10}
     return sorted(hs)
 
 
@@ -312,8 +319,10 @@ def pure_cfg(c, heights, noctx, maxlen, mode, mech, emit, kind):
     lines = ['SPECIFICATION %s' % {'mc': 'Spec', 'all': 'ASpec', 'trace': 'TSpec'}[kind], 'CONSTANTS',
              '  Heights = %s' % tla_set(heights, quote=False),
              '  NoCtx = %s' % ('TRUE' if noctx else 'FALSE'),
-             '  EnMs = %d' % c['enms'], '  EnEth = %d' % c['eneth'], '  FkMs = %d' % c['fkms'],
-             '  FkB58 = %d' % c['fkb58'], '  FkFmt = %d' % c['fkfmt'], '  EnSig = %d' % c['ensig'],
+             '  EnMs = %d' % max(c['enms'], 0), '  EnEth = %d' % max(c['eneth'], 0), '  FkMs = %d' % c['fkms'],
+             '  FkB58 = %d' % c['fkb58'], '  FkFmt = %d' % c['fkfmt'], '  EnSig = %d' % max(c['ensig'], 0),
+             '  OffDrivers = %s' % tla_set([i for i, k in ((1, 'enms'), (2, 'eneth')) if c[k] < 0], quote=False),
+             '  SigOff = %s' % ('TRUE' if c['ensig'] < 0 else 'FALSE'),
              '  MaxLen = %d' % maxlen, '  Mode = "%s"' % mode,
              '  CacheKey = "%s"' % ck, '  Order = "%s"' % order, '  PkCache = "%s"' % pk,
              '  EmitOn = %s' % ('TRUE' if emit else 'FALSE')]
@@ -329,6 +338,7 @@ def pure_cfg(c, heights, noctx, maxlen, mode, mech, emit, kind):
 
 REPAIRED = ('addr+enabled', 'id', 'raw')
 AS_FOUND = [('addr', 'id', 'raw'), ('addr+enabled', 'map', 'raw'), ('addr+enabled', 'id', 'formatted')]
+GATED_KEY = ('addr+gated', 'id', 'raw')   # key counts only positively gated drivers: wrong with a negative enable height
 
 
 def run_c19(ctx, b):
@@ -345,9 +355,9 @@ def run_c19(ctx, b):
     ctx.extra['verdict_table_matches_code'] = check_verdicts(ctx, verd)
     # (configuration, history length, export every node-step history?, process-level repetitions, simulated histories)
     if q:
-        plan = [('A', 4, True, 0, 30), ('B', 4, False, 0, 30)]
+        plan = [('A', 4, True, 0, 30), ('B', 4, False, 0, 30), ('D', 4, True, 0, 20)]
     else:
-        plan = [('A', 4, True, 2, 200), ('B', 4, True, 2, 200), ('C', 4, True, 2, 200)]
+        plan = [('A', 4, True, 2, 200), ('B', 4, True, 2, 200), ('C', 4, True, 2, 200), ('D', 4, True, 2, 100)]
     for ci, (cname, L, export, nrep, nsim) in enumerate(plan):
         c = PCFGS[cname]
         heights = pure_heights(c)
@@ -375,6 +385,13 @@ def run_c19(ctx, b):
             ctx.extra.setdefault('as_found_mechanisms_violate_Pure', {})[cname] = found
             if cname == 'B' and not all(found):
                 raise vlib.Broken('Pure.tla: an as-found mechanism no longer violates Pure under configuration B (model vacuous)')
+        if cname == 'D':
+            ctx.write_cfg(d, 'p_af.cfg', pure_cfg(c, heights, noctx, 3, 'all', GATED_KEY, False, 'mc'))
+            r = quiet_expected_violation(lambda: ctx.tlc_mc('Pure_MC', 'p_af.cfg', workers=2, timeout=3600, stage=d,
+                                                             expect_violation=True, count=False))
+            ctx.extra.setdefault('as_found_mechanisms_violate_Pure', {})['D:addr+gated'] = bool(r['violation'])
+            if not r['violation']:
+                raise vlib.Broken('Pure.tla: the key without negatively gated drivers no longer violates Pure under configuration D')
         opts = dict(c, cfg=cname, inst=3, reps=5, strict=(6 if q else 10))
         nhist = 0
         if export:
